@@ -623,16 +623,16 @@ def run_check(mod, tier, seed):
     probes_missing = [p for p in getattr(mod, "REQUIRED_PROBES", {}).get(tier, [])
                       if not total["probes"].get(p)]
     viols = list(extra_viol) + total["violations"]
-    for kid, n in sorted(total["known"].items()):
-        what = next((k["what"] for k in known_findings() if k["id"] == kid), "")
-        print("KNOWN-FINDING: property=%s %s [%s, seen in %d runs]" % (
-            mod.ID, what, kid, n))
+    # every *open* known finding of this property is listed on every run
+    # (with how often this run met it), fixed ones never are
+    seen = dict(total["known"])
     if extra:
-        for kid, n in sorted(extra.get("known", {}).items()):
-            what = next((k["what"] for k in known_findings()
-                         if k["id"] == kid), "")
-            print("KNOWN-FINDING: property=%s %s [%s, seen %d times]" % (
-                mod.ID, what, kid, n))
+        for kid, n in extra.get("known", {}).items():
+            seen[kid] = seen.get(kid, 0) + n
+    for k in known_findings():
+        if k.get("status") == "open" and k["property"] == mod.ID:
+            print("KNOWN-FINDING: property=%s %s [%s, met in %d runs of this "
+                  "batch]" % (mod.ID, k["what"], k["id"], seen.get(k["id"], 0)))
     rc = 0
     if viols:
         v = viols[0]
